@@ -1,7 +1,50 @@
 (* C02 — Task group errors: siblings cancelled, every exception surfaces exactly once.
    This file contains only statements closed by `exact` and their Print Assumptions. *)
-From AV Require Import Base Machine GroupThmsPure.
+From AV Require Import Base Machine GroupInv GroupThmsPure GroupThms GroupThms4 GroupThms6 GroupThms7.
 From Coq Require Import Permutation.
+
+Theorem C02_group_excs_exactly_member_errors : forall s g, reach s ->
+  NoDup (filter (fun x => negb (Nat.eqb x 0)) (map fst (g_excs (groups s g)))) /\
+  (forall t e, In (t, e) (g_excs (groups s g)) -> t <> 0 ->
+     k_group (tasks s t) = Some g /\ k_tdran (tasks s t) = true /\ k_done (tasks s t) = Some (OExc e) /\
+     is_cancel e = false) /\
+  (forall e, In (0, e) (g_excs (groups s g)) -> is_cancel e = false) /\
+  (forall t e, In t (g_ever (groups s g)) -> k_tdran (tasks s t) = true -> k_done (tasks s t) = Some (OExc e) ->
+     is_cancel e = false /\
+     (In (t, e) (g_excs (groups s g)) \/
+      exists f, k_startfut (tasks s t) = Some f /\ f_st (futs s f) = FExc e)).
+Proof. exact group_excs_exactly_member_errors. Qed.
+Print Assumptions C02_group_excs_exactly_member_errors.
+
+Theorem C02_group_excs_grow_only_by : forall s o g, reach s ->
+  g_excs (groups (fst (step s o)) g) <> g_excs (groups s g) ->
+  (exists t e, o = ARun (HTaskDone t) /\ In (HTaskDone t) (ready s) /\ k_group (tasks s t) = Some g /\
+               k_done (tasks s t) = Some (OExc e) /\ is_cancel e = false /\
+               g_excs (groups (fst (step s o)) g) = g_excs (groups s g) ++ [(t, e)]) \/
+  (exists t e, o = AGroupExit t g /\ idle s t = true /\ k_held (tasks s t) = Some e /\ is_cancel e = false /\
+               g_excs (groups (fst (step s o)) g) = g_excs (groups s g) ++ [(0, e)]) \/
+  (exists t, o = AGroupNew t /\ g = ngroup s).
+Proof. exact group_excs_grow_only_by. Qed.
+Print Assumptions C02_group_excs_grow_only_by.
+
+Theorem C02_first_failure_cancels_group : forall s t g, reach s -> In (HTaskDone t) (ready s) ->
+  k_group (tasks s t) = Some g ->
+  g_excs (groups (fst (step s (ARun (HTaskDone t)))) g) <> g_excs (groups s g) ->
+  eff_cancelled (fst (step s (ARun (HTaskDone t))))
+                (g_scope (groups (fst (step s (ARun (HTaskDone t)))) g)) = true.
+Proof. exact first_failure_cancels_group. Qed.
+Print Assumptions C02_first_failure_cancels_group.
+
+Theorem C02_group_raises_group_of_excs : forall s t g exc, map snd (g_excs (groups s g)) <> [] ->
+  aexit_finish s t g exc = aexit_raise s t g (EGroup (map snd (g_excs (groups s g)))).
+Proof. exact group_raises_group_of_excs. Qed.
+Print Assumptions C02_group_raises_group_of_excs.
+
+Theorem C02_outcome_classes : forall s t e, reach s ->
+  (k_done (tasks s t) = Some (OCanc e) -> is_cancel e = true) /\
+  (k_done (tasks s t) = Some (OExc e) -> is_cancel e = false).
+Proof. exact outcome_classes. Qed.
+Print Assumptions C02_outcome_classes.
 
 Theorem C02_split_partitions_leaves : forall e : exn,
   let m := match fst (split_exn e) with Some x => leaves x | None => [] end in
